@@ -1188,6 +1188,17 @@ func ManyTiny(kind, sub, n, junk int) []byte {
 		out := Box("ftyp", []byte("avif"), be32(0), []byte("avifmif1"))
 		out = append(out, fullBox("meta", 0, 0, inner)...)
 		return append(out, Box("mdat", make([]byte, 64))...)
+	case 12:
+		// a CR3 moov box holding n preview uuid boxes that each declare 1 MiB and hold 4 (sub even)
+		// or 16 bytes
+		one := Box("uuid", uuidPreview, be32(0), be32(1), Box("PRVW", be32(0), be16(1), be16(160), be16(120), be16(1), be32(1<<20), make([]byte, 4+12*(sub%2))))
+		moov := Box("uuid", uuidCanonMeta, Box("CNCV", []byte("CanonCR3_001/00.09.00/00.00.00")))
+		for i := 0; i < n; i++ {
+			moov = append(moov, one...)
+		}
+		out := Box("ftyp", []byte("crx "), be32(1), []byte("crx isom"))
+		out = append(out, Box("moov", moov)...)
+		return append(out, Box("mdat", make([]byte, 64))...)
 	case 11:
 		// an AVIF-branded file whose meta box holds one iloc box with min(n, 65535) six-byte entries
 		// in front of n empty iinf boxes (iloc first is the order libavif writes): what is kept of
